@@ -504,7 +504,27 @@ class Analyzer:
         fn = self.fn
 
         def names(e):
-            return {c.id for c in ast.walk(e) if isinstance(c, ast.Name)}
+            """names an expression's value can depend on; a keyword handed to a mesh method
+            counts only when that parameter can influence the callee's returned value"""
+            out = set()
+
+            def visit(n):
+                if isinstance(n, ast.Name):
+                    out.add(n.id)
+                    return
+                if isinstance(n, ast.Call) and isinstance(n.func, ast.Attribute) and \
+                        self.is_root(n.func.value) and n.func.attr in self.universe:
+                    rel = callee_relevant(self.universe, n.func.attr, self.where)
+                    for x in n.args:
+                        visit(x)
+                    for kw in n.keywords:
+                        if kw.arg is None or rel is None or kw.arg in rel:
+                            visit(kw.value)
+                    return
+                for c in ast.iter_child_nodes(n):
+                    visit(c)
+            visit(e)
+            return out
 
         def assigned(s):
             out = set()
@@ -591,6 +611,32 @@ class Analyzer:
         self.accesses()
         self.slot_idiom()
         return self.facts
+
+
+_REL_MEMO = {}
+_REL_BUSY = set()
+
+
+def callee_relevant(universe, name, where):
+    """parameters of a mesh method that can influence its returned value, or None (unknown)"""
+    key = (id(universe), name)
+    if key in _REL_MEMO:
+        return _REL_MEMO[key]
+    if key in _REL_BUSY or len(_REL_BUSY) > 6:
+        return None
+    _REL_BUSY.add(key)
+    try:
+        a = Analyzer(universe[name], universe, 'self', where)
+        fa = universe[name].args
+        a.facts.args = [x.arg for x in fa.posonlyargs + fa.args + fa.kwonlyargs if x.arg != 'self']
+        if fa.vararg or fa.kwarg:
+            res = None
+        else:
+            res = a.relevant_args()
+    finally:
+        _REL_BUSY.discard(key)
+    _REL_MEMO[key] = res
+    return res
 
 
 def load_classes(repo, files):
@@ -681,6 +727,7 @@ def closure(facts, fns):
 
 
 def translate(repo):
+    _REL_MEMO.clear()
     consumed = {}
     classes, srcs = load_classes(repo, MESH_FILES)
     for rel, b in srcs.items():
@@ -816,10 +863,29 @@ def translate(repo):
             if c.startswith('@writer:'):
                 if nm != 'write':
                     raise TranslateError(f'{nm}: the mesh is handed to a writer class outside write()')
+    # a derivation reads the variable tables as payload for its child: the pseudo-key
+    # '*payload' stands for "the variables, whichever they are" (overlaps whole-table writers,
+    # not the literal by-product keys other queries add)
+    for nm, f in facts.items():
+        if f.ctor is not None:
+            f.reads = {((t, '*payload') if (t in VAR_TABLES and k is None) else (t, k)) for (t, k) in f.reads}
     allfacts = dict(facts)
     for names, W in writers:
         allfacts['@' + W.name] = W
     R, Wr, C, P = closure(allfacts, universe)
+    # private helpers with parameter keys: their own entry uses the keys of their call sites
+    for m in list(facts):
+        if not m.startswith('_'):
+            continue
+        for A in (R, Wr):
+            if not any(k is not None and k.startswith('?') for (_, k) in A[m]):
+                continue
+            sites = [call for f in allfacts.values() for (c, _, call) in f.calls if c == m]
+            if sites and all(call is not None for call in sites):
+                new_set = set()
+                for call in sites:
+                    new_set |= subst_params(A[m], universe.get(m), call)
+                A[m] = new_set
     # the clear-everything idiom, closed over calls
     all_memo = {nm for nm, f in facts.items() if f.lru is not None}
     ca = {m for m in allfacts if getattr(allfacts[m], 'clears_all', False)}
